@@ -71,6 +71,9 @@ def gen(rnd, dm, pp, n):
         v, t = E.ev(e)
         if not E.defined:
             continue
+        if not (E.flags["wrap"] or E.flags["overflow"]):
+            # identity used by the symbolic oracle for / and %: with no reduction anywhere, C value == exact integer value
+            assert E.exact(e) == v, ("exact() differs", e, vals, v, E.exact(e))
         if pp:
             out.append((e, vals, None, int(v != 0)))
         else:
